@@ -111,8 +111,8 @@ func (c c10Conf) setEffective(k, v []byte) bool {
 	return c.lru && uint64(len(k)+len(v)) <= limElem
 }
 
-const c10StepTimeout = 3 * time.Second
-const c10StressTimeout = 15 * time.Second
+var c10StepTimeout = 3 * time.Second * slowFactor()
+var c10StressTimeout = 15 * time.Second * slowFactor()
 
 // ---------------------------------------------------------------- snapshots and bounds
 
@@ -1056,7 +1056,7 @@ func evalC10Local(c string) Result {
 // skipped (every one of them would cost a timeout)
 var c10Hangs int
 
-const c10ChildTimeout = 40 * time.Second
+var c10ChildTimeout = 40 * time.Second * slowFactor()
 
 // evalC10Child runs a case that starts goroutines in a child process of the same binary
 // ("harness c10child <case>", see init below), one child per case: a fatal error of the Go
